@@ -341,6 +341,78 @@ func buildDecisionPair(r *gen.RNG) (ref.Bits, ref.Bits) {
 	return x, y
 }
 
+// buildStructuredDiff constructs an effective subtraction x - y whose exact
+// difference is D = Q*10^k + T with a chosen pattern T of k discarded digits
+// (guard digit, a run of zeros, one more digit, tail): x is D rounded up to a
+// multiple of 10^p (a short, "round" minuend at a larger exponent) and
+// y = x - D < 10^p, so the subtrahend is shifted right and truncated during
+// alignment whenever p is large.
+func buildStructuredDiff(r *gen.RNG) (ref.Bits, ref.Bits) {
+	k := r.Range(1, 12)
+	lead := r.Range(10, 99)
+	if r.Chance(1, 3) {
+		lead = r.Pick(12, 13, 10, 33, 34, 99, 25, 50)
+	}
+	q := new(big.Int).Mul(big.NewInt(int64(lead)), ref.Pow10(32))
+	switch r.Intn(4) {
+	case 0: // round kept part
+	case 1:
+		q.Add(q, r.BigBelow(ref.Pow10(32)))
+	case 2:
+		q.Add(q, new(big.Int).Sub(ref.Pow10(32), big.NewInt(int64(r.Range(1, 3))))) // ...999
+	default:
+		q.Add(q, big.NewInt(int64(r.Range(0, 9))))
+	}
+	ds := make([]byte, k)
+	for i := range ds {
+		ds[i] = '0'
+	}
+	ds[0] = byte('0' + r.Pick(0, 0, 4, 5, 5, 9, r.Intn(10)))
+	if k > 1 {
+		pos := 1 + r.Intn(k-1)
+		ds[pos] = byte('0' + r.Range(1, 9))
+		switch r.Intn(4) {
+		case 0:
+		case 1:
+			ds[k-1] = byte('0' + r.Range(1, 9))
+		case 2:
+			for i := pos + 1; i < k; i++ {
+				ds[i] = '9'
+			}
+		default:
+			for i := pos + 1; i < k; i++ {
+				ds[i] = byte('0' + r.Intn(10))
+			}
+		}
+	}
+	t, _ := new(big.Int).SetString(string(ds), 10)
+	D := new(big.Int).Mul(q, ref.Pow10(k))
+	D.Add(D, t)
+	p := r.Range(k, 34)
+	if r.Chance(1, 3) {
+		p = r.Pick(34, 33, 32, 30) // very short minuend, e.g. 2e38 - 49000.5
+	}
+	pw := ref.Pow10(p)
+	xc := new(big.Int).Add(D, new(big.Int).Sub(pw, ref.One))
+	xc.Quo(xc, pw) // ceil(D / 10^p)
+	yc := new(big.Int).Mul(xc, pw)
+	yc.Sub(yc, D)
+	if yc.Sign() == 0 {
+		yc.SetInt64(1)
+	}
+	E := r.Range(ref.MinExp, ref.MaxExp-p)
+	if r.Chance(3, 4) {
+		E = r.Range(-60, 60)
+	}
+	neg := r.Bool()
+	x := ref.Encode(neg, xc, E+p)
+	y := ref.Encode(!neg, yc, E) // added with opposite sign: effective subtraction under Add, true sum under Sub
+	if r.Bool() {
+		x, y = y, x
+	}
+	return x, y
+}
+
 func buildCancelPair(r *gen.RNG) (ref.Bits, ref.Bits) {
 	c, _ := r.Coef()
 	if c.Sign() == 0 {
@@ -435,6 +507,10 @@ func runC01(c *Ctx) {
 					j.judgePair(x, y, "", 0)
 				case i%10 < 8:
 					x, y := buildCancelPair(r)
+					j.judgePair(x, y, "", 0)
+				case i%10 < 9:
+					x, y := buildStructuredDiff(r)
+					j.sh.Cell("gen/structured-difference")
 					j.judgePair(x, y, "", 0)
 				default:
 					x := r.Finite()
